@@ -15,7 +15,7 @@ Proof.
   rewrite (cmax_same fops (fofZ n)), (cmin_same fops (fofZ n)). auto.
 Qed.
 
-Lemma approx_theta_one n sd : approx_lb n PrimFloat.one sd = Exact 1 (fofZ n) /\ approx_ub n PrimFloat.one sd = Exact 1 (fofZ n).
+Lemma approx_theta_one n sd pw : approx_lb n PrimFloat.one sd pw = Exact 1 (fofZ n) /\ approx_ub n PrimFloat.one sd pw = Exact 1 (fofZ n).
 Proof. split; reflexivity. Qed.
 
 (* zero samples: estimate and lower bound are +0 for every theta > 0, whatever branch computes the inner value 0 *)
@@ -26,8 +26,8 @@ Proof.
   split; [exact E|]. unfold bb_lb. rewrite E. cbn [nofZ fops]. rewrite fofZ_0.
   rewrite (cmax_same fops PrimFloat.zero), (cmin_same fops PrimFloat.zero). reflexivity.
 Qed.
-Lemma approx_lb_zero_samples theta sd :
-  approx_lb 0 theta sd = Exact 1 PrimFloat.zero \/ approx_lb 0 theta sd = Exact 2 PrimFloat.zero.
+Lemma approx_lb_zero_samples theta sd pw :
+  approx_lb 0 theta sd pw = Exact 1 PrimFloat.zero \/ approx_lb 0 theta sd pw = Exact 2 PrimFloat.zero.
 Proof. unfold approx_lb. destruct (PrimFloat.eqb theta 1); [left | right]; reflexivity. Qed.
 
 (* theta_sketch / tuple_sketch outside estimation mode *)
